@@ -387,9 +387,11 @@ def direct_mutations(rng):
              {'name': 'id', 'type': 'AutoField', 'attrs': {'primary_key': True}, 'related': None},
              {'name': 'a', 'type': 'IntegerField', 'attrs': {}, 'related': None},
              {'name': 'b__gt', 'type': 'IntegerField', 'attrs': {'null': True}, 'related': None},
-             {'name': 'name', 'type': 'CharField', 'attrs': {'max_length': 20}, 'related': None}]}]}]}
+             {'name': 'name', 'type': 'CharField', 'attrs': {'max_length': 20}, 'related': None},
+             {'name': 'owner', 'type': 'ForeignKey', 'attrs': {'null': True}, 'related': 'vapp.Alpha'}]}]}]}
     old = sigs.sig_from_spec(spec)
-    k = rng.choice(['check', 'check', 'index_cond', 'index_expr', 'unique', 'add_str', 'change_str', 'together'])
+    k = rng.choice(['check', 'check', 'index_cond', 'index_expr', 'unique', 'add_str', 'change_str', 'together',
+                    'rename_field', 'rename_field', 'rename_model', 'change_plain', 'add_plain'])
     q = values.gen_q_ops(rng) if rng.random() < 0.7 else values.gen_q(rng)
     if k == 'check':
         mu = M.ChangeMeta('Alpha', 'constraints', [{'type': models.CheckConstraint, 'name': 'chk_%d' % rng.randint(1, 9),
@@ -414,6 +416,29 @@ def direct_mutations(rng):
         v = s
     elif k == 'change_str':
         mu = M.ChangeField('Alpha', 'name', initial=rng.choice(values.STRS), max_length=rng.choice([5, 50]), null=False)
+        v = None
+    elif k == 'rename_field':
+        # names, columns and tables that coincide with what Django would derive by itself are parameters like
+        # any other: they must survive being written out
+        f = rng.choice(['a', 'name', 'owner'])
+        new = rng.choice(['cost', 'keeper'])
+        mu = M.RenameField('Alpha', f, new, db_column=rng.choice([None, new, new, f, new + '_id', f + '_id', 'col_x']))
+        v = None
+    elif k == 'rename_model':
+        mu = M.RenameModel('Alpha', 'Beta', db_table=rng.choice(['vapp_alpha', 'vapp_beta', 'beta', 't"x']))
+        v = None
+    elif k == 'change_plain':
+        attrs = {}
+        for a, vals in (('db_column', [None, 'name', 'n_x']), ('db_index', [True, False]), ('unique', [True, False]),
+                        ('null', [True]), ('max_length', [20, 0, None])):
+            if rng.random() < 0.5:
+                attrs[a] = rng.choice(vals)
+        mu = M.ChangeField('Alpha', rng.choice(['name', 'owner']) if 'max_length' not in attrs else 'name',
+                           **(attrs or {'db_index': True}))
+        v = None
+    elif k == 'add_plain':
+        mu = M.AddField('Alpha', 'extra2', models.IntegerField, null=True, db_index=rng.choice([True, False]),
+                        db_column=rng.choice([None, 'extra2', 'x2']), unique=rng.choice([True, False]))
         v = None
     else:
         mu = M.ChangeMeta('Alpha', 'unique_together', [('a', 'name')])
